@@ -14,7 +14,8 @@ those of js.go, expressed on the previous token (`m.prev`) and the token about t
 * `writeSpaceBefore('+'|'-'|'/')` after the tokens `+`, `-`, `/`; `writeSpaceBefore('-')` after a `!` that follows `<`.
 * `writeSpaceAfterIdent` before `in` / `instanceof` / `of`: also after a regular expression literal.
 * `a-- >b`: a space before `>` when the previous token ends in `-`.
-* `a< /script>/`: a space between `<` and a regular expression starting with `/script>`.
+* `a< /script>/`: a space between `<` and a regular expression whose pattern starts with `script` in any case
+  (`/script/`, `/SCRIPT>/`, `/scriptx/`; since /repo a80add2, before: only the exact prefix `/script>`).
 * import / export clauses: `"a" as b`, `a as "b"` (the `as ` chunk carries its space).
 * a kept `//!` comment is followed by a line feed.
 * `import.meta in x`, `new.target instanceof y`: two spaces (`writeSpaceBeforeIdent` after the meta property and
@@ -47,6 +48,9 @@ structure XState where
   spaceBefore : Option Char := none
 deriving Inhabited
 
+/-- ASCII lower case (`parse.EqualFold` against a lower-case target) -/
+def lowerC (c : Char) : Char := if 'A' ≤ c && c ≤ 'Z' then Char.ofNat (c.toNat + 32) else c
+
 def lastOf (t : Option XTok) : Option Char := t.bind (fun x => x.text.getLast?)
 
 def isName (t : XTok) (s : String) : Bool := t.kind == .tok .name && t.text == s.toList
@@ -67,8 +71,8 @@ def spaceBetween (st : XState) (t : XTok) : Bool :=
     || (p.kind == .tok .regex && (isName t "in" || isName t "instanceof" || isName t "of"))
     -- a-- >b
     || (isPunct t ">" && la == some '-')
-    -- a< /script>/
-    || (t.kind == .tok .regex && la == some '<' && "/script>".toList.isPrefixOf t.text)
+    -- a< /script…/ (any case)
+    || (t.kind == .tok .regex && la == some '<' && ((t.text.drop 1).take 6).map lowerC == "script".toList)
     -- static .5
     || (isName p "static" && t.kind == .tok .num)
     -- "a" as b, a as "b"
